@@ -145,6 +145,12 @@ type Env struct {
 
 	elemOut map[[2]int]Outcome
 	Ems     []*RecEmitter
+
+	// Race selects the race-detector flavour (C12): user functions record
+	// nothing and take no lock, so that the harness adds no happens-before
+	// edges between tasks; only the race detector and the final Results
+	// are judged.
+	Race bool
 }
 
 // NewEnv builds the environment for one execution.
@@ -281,6 +287,19 @@ func (e *Env) outcomeFor(unit, elem int) Outcome {
 
 // begin logs the start of a unit invocation and applies timing/cancel.
 func (e *Env) begin(unit, elem, idx int, key string, ctx context.Context, ins []uint64) (int, Outcome) {
+	if e.Race {
+		o := e.outcomeFor(unit, elem)
+		switch o.T {
+		case 1:
+			runtime.Gosched()
+		case 2:
+			time.Sleep(time.Duration(o.D) * time.Microsecond)
+		}
+		if e.Scn.CancelK == CInUnit && e.Scn.CancelU == unit && e.Cancel != nil {
+			e.Cancel()
+		}
+		return -1, o
+	}
 	ev := Event{Kind: "call", Unit: unit, Elem: elem, Idx: idx, Key: key, In: append([]uint64(nil), ins...), Gid: Gid()}
 	if ctx != nil {
 		ev.HasC = true
@@ -339,6 +358,19 @@ func (e *Env) finish(pos int, unit, elem int, o Outcome, canErr bool, outs []uin
 		default:
 			inj.PV = &PanicStruct{e.ID, unit, elem}
 		}
+	}
+	if e.Race {
+		switch kind {
+		case OErr:
+			return inj.Err
+		case OPanic:
+			if o.PV == 2 {
+				var m map[int]int
+				m[unit] = elem
+			}
+			panic(inj.PV)
+		}
+		return nil
 	}
 	e.inflight.Add(-1)
 	end := Seq()
